@@ -25,6 +25,7 @@ def run_with_scenarios(mod, ctx):
     S.reset()
     set_zero_atoms(())
     mod.run(ctx)
+    _verbose_lint(ctx)
     # a site whose special outcome is already exercised with consistent (zero-specialised) data is not ALSO forced with generic
     # data: the forced combination (special branch + generic values) is contradictory there and only produces noise
     alts = [a for a in S.alts if not (a[0] == "force" and a[1] in S.zero_sites)]
@@ -74,6 +75,23 @@ def run_with_scenarios(mod, ctx):
         hard = list(skipped)       # (forced alternatives as well: a branch nobody could analyse is a branch nobody decided)
         if hard and not ctx.findings:
             raise AnalysisError("data-dependent branch not analysable for the specialised input: " + hard[0][:300])
+
+
+def _verbose_lint(ctx):
+    """E3.verbose-pure: in every function the rule analysed, a branch guarded by `verbose` only reports - it neither rebinds nor writes
+    a variable that is read outside the branch, nor leaves the branch through return / break / continue / raise."""
+    from .effects_lint import verbose_impurities
+    n_funcs = 0
+    for mod_ in ctx.program.modules.values():
+        for fi in mod_.all_funcs:
+            if fi.where not in ctx.analysed:
+                continue
+            n_funcs += 1
+            for ln, name, what in verbose_impurities(fi.node):
+                ctx.ob(f"{ctx.prop}.E3.verbose-pure", f"{fi.where}: diagnostics branch at line {ln}", False,
+                       f"a branch guarded by `verbose` {what} {name!r}, which the rest of the function uses: the result depends on "
+                       f"the verbosity flag", where=fi.where, construct=f"verbose branch changes {name}", loc=f"{mod_.relpath}:{ln}")
+    ctx.notes["verbose_lint_functions"] = n_funcs
 
 
 def run_selftest(prop, ctx):
